@@ -137,7 +137,10 @@ class Pool:
             v = RegionVisual({'color': rnd.choice(['red', 'blue']), 'linewidth': 2}) if rnd.random() < 0.7 else RegionVisual()
             return {'meta': m, 'visual': v}
         c = lambda: PixCoord(rnd.randint(5, 25) / 2 + 5, rnd.randint(5, 25) / 2)  # noqa
-        ang = lambda: rnd.choice([0, 30, 36.87, -70]) * u.deg  # noqa
+        from astropy.coordinates import Angle
+        # angles are handed over in several units and as Angle objects (an operation may not convert them in place)
+        ang = lambda: rnd.choice([lambda v: v * u.deg, lambda v: (v * u.deg).to(u.rad), lambda v: (v * u.deg).to(u.arcmin),  # noqa
+                                  lambda v: Angle(v, 'deg'), lambda v: v * u.deg])(rnd.choice([0, 30, 36.87, -70]))
         sc = lambda: self.wcs.pixel_to_world(rnd.uniform(5, 25), rnd.uniform(5, 20))  # noqa
         sz = lambda: rnd.choice([3, 7.5, 12]) * u.arcsec  # noqa
         pixmakers = [
@@ -188,6 +191,7 @@ class Pool:
         self.other_pix = pixmakers[0]()
         self.other_sky = skymakers[0]()
         self.tmp = None
+        self.masks = {}
 
     def fingerprint(self):
         return (tuple((k, fp(v)) for k, v in sorted(self.objs.items())), fp(self.parts), fp(self.other_pix), fp(self.other_sky),
@@ -198,6 +202,7 @@ class Pool:
         """The user changes an object between calls: a meta/visual entry and one geometric parameter."""
         import astropy.units as u
         obj = self.objs[o]
+        self.masks.clear()            # a mask is a snapshot of the region it was made from
         if o == 'lst':
             obj = obj.regions[0]
         obj.meta['label'] = 'changed by user'
@@ -295,9 +300,20 @@ class Pool:
             lst = obj if is_list else Regions([obj])
             return [lst[0:2], lst[::-1], lst[0], len(lst)]
         if op == 'mask_apply':
+            # the RegionMask of a region is kept and used again by later calls (until the user edits the region): applying it
+            # - with or without a user mask of bad pixels - may leave nothing behind in it
+            um = (np.add.outer(np.arange(self.image.shape[0]), np.arange(self.image.shape[1])) % 3 == 0)
+
             def app(r):
-                m = (r if ispix(r) else r.to_pixel(self.wcs)).to_mask()
-                return [m.cutout(self.image), m.multiply(self.image), m.to_image(self.image.shape), m.get_values(self.image)]
+                key = id(r)
+                ent = self.masks.get(key)
+                if ent is None or ent[0] is not r:
+                    ent = self.masks[key] = (r, (r if ispix(r) else r.to_pixel(self.wcs)).to_mask(mode=['center', 'exact', 'subpixels'][k % 3]
+                                                                                                 if type(r).__name__.startswith(('Circle', 'Ellipse')) and 'Annulus' not in type(r).__name__
+                                                                                                 else 'center'))
+                m = ent[1]
+                return [m.multiply(self.image), m.cutout(self.image), m.get_values(self.image, mask=um), m.to_image(self.image.shape), m.get_values(self.image),
+                        m.to_image(self.image.shape, dtype=int)]
             return each(app)
         raise AssertionError(op)
 
